@@ -878,3 +878,7 @@ mod tests {
         }
     }
 }
+
+#[cfg(all(test, pendulum_project_ntpd_rs_verif))]
+#[path = "/verif/harness/ntp_proto/time_types.rs"]
+pub(crate) mod verif_hook;
